@@ -30,6 +30,14 @@ MSG_ID = 77
 CTX = 5
 
 
+def _default_exc():
+    return RuntimeError("scripted handler exception")
+
+
+# what a scripted "raise" step raises (C26 varies it: OSError subclasses, exceptions without arguments, ...)
+RAISE_WHAT = _default_exc
+
+
 def status_value(cls: str):
     if cls in ST:
         return ST[cls]
@@ -120,7 +128,7 @@ class Run:
             if k == "end":
                 return
             if k == "raise":
-                raise RuntimeError("scripted handler exception")
+                raise RAISE_WHAT()
             if k == "abort":
                 self.handler_aborted = True
                 event.assoc.abort()
@@ -146,7 +154,7 @@ class Run:
         s = self.script[0]
         self.pulled = 1
         if s["k"] == "raise":
-            raise RuntimeError("scripted handler exception")
+            raise RAISE_WHAT()
         if s["k"] == "abort":
             self.handler_aborted = True
             event.assoc.abort()
